@@ -185,7 +185,7 @@ Example c22_example :
   let s := encode_all ms in
   feed_all go_dconf go_d_init [firstn 2 s; firstn 4 (skipn 2 s); skipn 6 s]
   = ({| ph := PLen v0; consumed := 307; cap := go_decoder_initial_buffer; allocated := 0 |}, ms).
-Proof. vm_compute. reflexivity. Qed.
+Proof. exact framing_example. Qed.
 
 Print Assumptions c22_varint.
 Print Assumptions c22_fragmentation.
